@@ -231,9 +231,11 @@ def gen_random(ctx, rng, chk, inject):
         s.end()
         wrong()
         s.probes(rng)
-        if rng.random() < 0.7:
+        # the audit-round ops only in histories the property covers (not in the NDEBUG + wrong-state stream, where the
+        # python steering mirror is only approximate and the property constrains nothing)
+        if not s.nd and rng.random() < 0.7:
             s.extras(rng)
-        if rng.random() < 0.3:
+        if not s.nd and rng.random() < 0.3:
             g = rng.choice(s.set)[0] if s.set and rng.random() < 0.8 else rng.choice(pool)
             s.setlocal(g, rng.randrange(0, 70)); s.probes(rng)
         if rng.random() < 0.4:
@@ -472,7 +474,11 @@ def replay(ctx, path):
     mo, io = run_all(ctx, exes, [case])
     m, ml, sp = split_model(mo[0])
     print("case  :", case); print("impl  :", io[0]); print("model :", m); print("legacy:", ml); print("spec  :", sp)
-    v = judge(case, io[0], sp)
+    chk = case.split()[1] == "1"
+    modelonly = (not chk) and not wellformed(sp)
+    if modelonly:
+        print("regime: NDEBUG build + wrong-state calls: the property constrains nothing, only the model is compared")
+    v = judge(case, io[0], m if modelonly else sp)
     for sig, det in v:
         print("oracle: REJECTS %s %s" % (sig, json.dumps(det)))
     if not v:
